@@ -30,7 +30,7 @@ def K(unit, harness, bounded=None, tier=None, timeout=600, cost=None, jobs=None)
 TRUSTED_BASE = [
     'soundness of Verus 0.2026.09.13 + Z3 and of Kani 0.68 + CBMC 6.11 (+ the SAT back end)',
     'rustc: the code Kani verifies (MIR of the scratch copy of /repo, add-only harness module) is the code that runs',
-    'Verus side: std/alloc contracts in contracts/verus/prelude.rs (Peekable::peek/next as a ghost sequence, sort_unstable, dedup, into_boxed_slice, ...) are ASSUMED',
+    'Verus side: std/alloc contracts in contracts/verus/prelude.rs (Peekable::peek/next and Iterator::next (vf_iter_next, R10) as a ghost sequence, sort_unstable, dedup, into_boxed_slice, ...) are ASSUMED',
     'Verus side: bodies of tinystr are not seen; every fact about TinyAsciiStr is a leaf contract that Kani proves on the real tinystr (assumed on the Verus side)',
     "rustc #[derive] semantics for PartialEq/Eq/Ord/Hash/Default/Clone on the library's structs",
     'heap allocation never fails; machine integers are machine integers in both tools (overflow checked)',
@@ -46,7 +46,7 @@ LOCALE_LEAF = [K('locale_unicode_leaf', h) for h in ['leaf_parse_key', 'leaf_par
     [K('locale_private_leaf', h) for h in ['leaf_parse_value', 'leaf_private_overlong']] + \
     [K('locale_leaf', h) for h in ['leaf_extension_type_from_byte', 'default_is_empty', 'tinystr8_eq_ord_is_text', 'tinystr4_eq_ord_is_text']]
 PRIVATE_BOUNDED = K('locale_private_leaf', 'private_try_from_iter_bounded',
-                    bounded='PrivateExtensionList::try_from_iter (assumed contract on the Verus side): <= 2 subtags of <= 3 symbolic bytes, sort_unstable stubbed by a 2-element sort',
+                    bounded='PrivateExtensionList::try_from_iter (also proved unbounded in Verus on the real text, rule R10; this re-checks the compiled code): <= 2 subtags of <= 3 symbolic bytes, sort_unstable stubbed by a 2-element sort',
                     timeout=900, cost='65 s')
 BRIDGE_ALL = r'::x_\w+$'
 LID_LEMMAS = r'::(lemma_(sorted_dedup_variants|var_run\w*|classes_disjoint|lex_\w+|adjacent_\w+|toks_skip|split_nonempty|first_sep_bounds)|first_sep_by|split_by|var_run|lex_le)$'
@@ -54,7 +54,7 @@ LID_PARSER = [V('langid', r'::parser::parse_language_identifier_from_iter$'), V(
               V('langid', r'::LanguageIdentifier::(from_bytes|try_from_iter|from_str)$'), V('langid', r'::LanguageIdentifierError::from$'),
               V('langid', LID_LEMMAS)]
 LOC_LEMMAS = r'::vspec::(lemma_\w+|ext_parse|kv_fold|last_key|tf_end|u_end|u_first_key)$'
-LOC_PARSER = [V('locale', r'::(UnicodeExtensionList|TransformExtensionList)::try_from_iter$'),
+LOC_PARSER = [V('locale', r'::(UnicodeExtensionList|TransformExtensionList|PrivateExtensionList)::try_from_iter$'),
               V('locale', r'::ExtensionsMap::(try_from_iter|from_bytes)$'),
               V('locale', r'::parser::parse_locale$'), V('locale', r'::Locale::(from_bytes|from_str)$'), V('locale', r'::ExtensionsMap::from_str$'),
               V('locale', r'::(LocaleError|ParserError)::from$'), V('locale', LOC_LEMMAS)]
@@ -137,11 +137,14 @@ PROPS.update({
     },
     'C11': {
         'kani': MATCH_K,
-        'verus': [V('locale', r'::Locale::matches$'), V('langid', r'::LanguageIdentifier::lemma_wf_view$')],
-        'explanation': 'Kani proves on the real code, for ALL raw field values and all four flag pairs, that LanguageIdentifier::matches equals the '
-                       'missing-subtag-as-wildcard formula field by field, plus the stated consequences (== when both flags are false, symmetry under swapping '
-                       'operands with flags, reflexivity, monotonicity in the flags); Locale::matches is verified in Verus (verbatim body) against '
-                       '"false if either side has private tags, else the id result"',
+        'verus': [V('locale', r'::Locale::matches$'), V('langid', r'::LanguageIdentifier::lemma_wf_view$'),
+                  V('langid', r'::LanguageIdentifier::matches$'), V('langid', r'::(subtag_matches|is_option_empty|subtags_match|lemma_variants_eq)$'),
+                  V('langid', r'::lemma_matches_\w+$')],
+        'explanation': 'LanguageIdentifier::matches and its helpers subtag_matches / is_option_empty / subtags_match are verified in Verus on their real text '
+                       '(variant lists of ANY length) against the missing-subtag-as-wildcard formula over the views; Language::matches is a leaf whose contract Kani proves for '
+                       'all raw values; the stated consequences (== when both flags are false, symmetry under swapping operands with flags, reflexivity, monotonicity in the '
+                       'flags) are Verus lemmas over the formula (lemma_matches_*) and are also asserted by Kani on the compiled code for ALL raw field values and all four flag '
+                       'pairs (variant lists <= 2 there); Locale::matches is verified in Verus (verbatim body) against "false if either side has private tags, else the id result"',
     },
     'C04': {
         'kani': [K('langid_leaf', h) for h in LEAF_LID] + LOCALE_LEAF + ORD_K,
@@ -155,7 +158,7 @@ PROPS.update({
     'C17': {
         'kani': [K('langid_leaf', h) for h in LEAF_LID],
         'verus': [V('langid', r'::LanguageIdentifier::(from_parts|into_parts)$'), V('langid', r'::lemma_(sorted_dedup_variants|variants_\w+)$'),
-                  V('locale', r'::Locale::into_parts$')],
+                  V('locale', r'::Locale::(into_parts|from_parts)$')],
         'explanation': 'into_parts returns the fields of the view and from_parts builds the wf value whose variant set is the argument\'s (sorted, de-duplicated), '
                        'so from_parts(into_parts(x)) == x on wf values and any order / duplication of the variants gives the same value',
     },
